@@ -1,6 +1,7 @@
 import Tx3Proofs.C06
 import Tx3Proofs.C06Reduce
 import Tx3Proofs.C06Lower
+import Tx3Proofs.C06Partial
 #print axioms Tx3.Expr.C06_reported_complete
 #print axioms Tx3.Expr.C06_closes
 #print axioms Tx3.C06_tx_closes
@@ -15,3 +16,6 @@ import Tx3Proofs.C06Lower
 #print axioms Tx3.Lang.lower_fresh
 #print axioms Tx3.Lang.lowerTx_fresh
 #print axioms Tx3.Lang.lowerTx_sealed_WF
+#print axioms Tx3.Expr.C06_args_in_rounds
+#print axioms Tx3.C06_tx_args_in_rounds
+#print axioms Tx3.C06_rounds_pending
